@@ -11,6 +11,11 @@ THEOREMS = [
     "CrCube.C03.prop_nan_iff",
     "CrCube.C03.pct_def",
     "CrCube.C03.row_props_sum_one",
+    "CrCube.C03.col_props_sum_one",
+    "CrCube.C03.rowsMarginProportion_def",
+    "CrCube.C03.columnsMarginProportion_def",
+    "CrCube.C03.rowsTableBase_defined",
+    "CrCube.C03.columnsTableBase_defined",
 ]
 RULE = ("random designs x surveys as in C01/C02 incl. empty rows/columns (zero bases) and all-zero tables; every proportion, "
         "percentage and margin-proportion output of every partition compared with count/base of the respondent-level spec, "
